@@ -3,6 +3,7 @@ package ext
 import (
 	"sort"
 	"testing"
+	"time"
 
 	"verif/harness/kit"
 
@@ -17,6 +18,14 @@ type c09Case struct {
 	Frag   *c05Case    `json:"fragmented_history,omitempty"`
 	Tail   []frameSpec `json:"later_traffic"`
 	Closed bool        `json:"cleanup_at_end"`
+	Idle   []idle09    `json:"idle_periods,omitempty"`
+}
+
+// idle09: after read number After (modulo the number of reads) the connection is silent for Ms, so that the next
+// read runs the re-request (> 5 s) or the expiry (> 60 s) path over the transfers still open.
+type idle09 struct {
+	After int   `json:"after_read"`
+	Ms    int64 `json:"ms"`
 }
 
 func genC09(t *rapid.T) c09Case {
@@ -34,6 +43,9 @@ func genC09(t *rapid.T) c09Case {
 		p := genC04(t)
 		p.Reuse = true
 		c.Plain = &p
+	}
+	for i, k := 0, rapid.SampledFrom([]int{0, 1, 1, 2}).Draw(t, "idles"); i < k; i++ {
+		c.Idle = append(c.Idle, idle09{After: rapid.IntRange(0, 40).Draw(t, "idle_after"), Ms: rapid.SampledFrom([]int64{5500, 7000, 7000, 61000}).Draw(t, "idle_ms")})
 	}
 	n := rapid.IntRange(1, 4).Draw(t, "tail_n")
 	for i := 0; i < n; i++ {
@@ -77,7 +89,7 @@ func checkC09(c c09Case, _ *kit.Collector) kit.Result {
 	sort.Ints(cuts)
 	parts := split(stream, cuts)
 	fd := newFeeder(true)
-	firstDelivery := -1
+	firstDelivery, rerequested := -1, false
 	for j, p := range parts {
 		out, err := fd.feed(p)
 		if err != nil {
@@ -86,6 +98,14 @@ func checkC09(c c09Case, _ *kit.Collector) kit.Result {
 		}
 		if len(out) > 0 && firstDelivery < 0 {
 			firstDelivery = j
+		}
+		for _, o := range out {
+			rerequested = rerequested || o.id == 0x8003
+		}
+		for _, id := range c.Idle {
+			if id.After%len(parts) == j {
+				fd.ex.Advance(time.Duration(id.Ms) * time.Millisecond)
+			}
 		}
 		// every earlier delivery must be unchanged after this read
 		for _, d := range fd.all {
@@ -114,6 +134,9 @@ func checkC09(c c09Case, _ *kit.Collector) kit.Result {
 	}
 	if c.Closed {
 		res.Labels = append(res.Labels, "cleanup")
+	}
+	if rerequested {
+		res.Labels = append(res.Labels, "re-request_sent_in_between")
 	}
 	res.NT = firstDelivery >= 0 && len(parts)-1-firstDelivery >= 2
 	return res
